@@ -27,6 +27,8 @@
 
 from __future__ import annotations
 
+import re
+
 from dataclasses import dataclass, field
 from fractions import Fraction
 from typing import Optional
@@ -56,9 +58,12 @@ class IMSCWriterConfiguration(ModuleConfiguration):
       if value is None:
         return None
 
-      [num, den] = value.split('/')
+      m = re.fullmatch(r"(\d+)/(\d+)", value) if isinstance(value, str) else None
 
-      return Fraction(int(num), int(den))
+      if m is None or int(m.group(1)) == 0 or int(m.group(2)) == 0:
+        raise ValueError(f"Invalid fps '{value}' value. Expect: '<num>/<denom>' with positive integers.")
+
+      return Fraction(int(m.group(1)), int(m.group(2)))
   
   @classmethod
   def name(cls):
